@@ -239,11 +239,29 @@ Fixpoint call_builtin (k : nat) (ev : nat -> val -> positive -> M val) (d : nat)
 Fixpoint eval (n : nat) (d : nat) (ast : val) (env : positive) {struct n} : M val :=
   match n with
   | O => fun st => (OutOfFuel, st)
-  | S n' => eval_step (eval n') (call_builtin n' (eval n')) n' d ast env
+  | S n' => eval_step (eval n') (eval n') (call_builtin n' (eval n')) n' d ast env
   end.
+
+(** EVAL with a Stepper installed: the debugger section runs at every entry of EVAL, and the
+    loop `continue`s become fresh EVAL calls (`if Stepper != nil { return EVAL(ctx, ast, env) }`),
+    which therefore run the debugger section again.  The depth parameter is not maintained
+    faithfully here (with a stepper every iteration is a new Go frame). *)
+Definition evalfn := nat -> val -> positive -> M val.
+Definition oof : evalfn := fun _ _ _ st => (OutOfFuel, st).
+
+(** (EVAL with its debugger section, the bare loop body used by `continue`) *)
+Fixpoint dbg_pair (n : nat) : evalfn * evalfn :=
+  match n with
+  | O => (oof, oof)
+  | S n' =>
+      let '(e, l) := dbg_pair n' in
+      let body : evalfn := eval_step e l (call_builtin n' e) n' in
+      ((fun d ast env => dbg_entry ast env (body d ast env)), body)
+  end.
+Definition eval_dbg (n : nat) : evalfn := fst (dbg_pair n).
 
 (** the root scope: every builtin bound to itself *)
 Definition raw_builtins : list str := [s_ "eval"; s_ "trace!"; s_ "depth!"].
 Definition root_frame : frame :=
   mkFrame (map (fun n => (n, VBuiltin n)) (raw_builtins ++ map fst builtin_table)) None.
-Definition state0 : state := mkState (PositiveMap.add ROOT root_frame (PositiveMap.empty frame)) 2%positive 1 [] [].
+Definition state0 : state := mkState (PositiveMap.add ROOT root_frame (PositiveMap.empty frame)) 2%positive 1 [] [] None.
